@@ -53,7 +53,7 @@ fn words(max_len: usize) -> Vec<CW> {
 pub fn run() -> i32 {
     let mut r = Report::new("C12");
     let thorough = r.thorough();
-    r.rule = "(a) condensed rules: every combination of two inputs, one or two outputs and zero, one or two environments from small pools vs the same sub-rules on consecutive lines; (b) `_,X` for every X of <= 2 (3) environment items vs `X_ , _mirror(X)`; (c) every group letter vs the manual's matrix, bare and with a modifier (also one that repeats or flips each of the group's own features), as input, in a context, in a structure and in a romaniser, on every segment of the universe; (d) optionals `(X,M:N)`, `(X)`, `(X,N)`, `(X,0)` for X of 1-2 capture-free items, 0<=M<=N<=3, before and after `_`, followed by 0-1 items, as context and as exception, vs the environment set of the explicit repetitions; (e) `A B > &` vs `A=1 B=2 > 2 1` for matrices/groups; x every word of W(I4,L). Oracle: structural equality of the two runs, or both Err. Non-trivial = equal and the word changed.".into();
+    r.rule = "(a) condensed rules: every combination of two inputs, one or two outputs and zero, one or two environments from small pools vs the same sub-rules on consecutive lines; (b) `_,X` for every X of <= 2 (3) environment items vs `X_ , _mirror(X)`; (c) every group letter vs the manual's matrix, bare and with a modifier (also one that repeats or flips each of the group's own features), as input, in a context, in a structure and in a romaniser, on every segment of the universe; (d) optionals `(X,M:N)`, `(X)`, `(X,N)`, `(X,0)` for X of 1-2 capture-free items, 0<=M<=N<=3, before and after `_`, followed by 0-1 items (and by two items, on words of up to 5 segments over {p,t,a}), as context and as exception, vs the environment set of the explicit repetitions; (e) `A B > &` vs `A=1 B=2 > 2 1` for matrices/groups; x every word of W(I4,L). Oracle: structural equality of the two runs, or both Err. Non-trivial = equal and the word changed.".into();
     let ws = words(if thorough { 5 } else { 4 });
     let s = |x: &str| x.to_string();
     let mut jobs: Vec<(&'static str, Vec<String>, Vec<String>)> = vec![];
@@ -98,6 +98,21 @@ pub fn run() -> i32 {
             }
         } } }
     } } }
+    // optionals followed by TWO items (a continuation that can fail half-way, after which the next repetition must start from
+    // where the previous repetition ended), on words of up to 5 segments over {p,t,a}
+    let tails2: [(&str, &str); 6] = [("t #", "# t"), ("t a", "a t"), ("a t", "t a"), ("C #", "# C"), ("t p", "p t"), ("C V", "V C")];
+    for x in [vec!["C"], vec!["t"], vec!["[]"], vec!["C", "V"]] { for m in 0..=2usize { for n in m..=3usize { if n == 0 { continue; }
+        for (ta, tb) in tails2 { for after in [true, false] { for exc in [false, true] {
+            let opt = format!("({},{}:{})", x.join(" "), m, n);
+            let reps: Vec<String> = (m..=n).map(|k| std::iter::repeat(x.join(" ")).take(k).collect::<Vec<_>>().join(" ")).collect();
+            let mk = |mid: &str| -> String { if after { format!("_ {} {}", mid, ta) } else { format!("{} {} _", tb, mid) } };
+            let members: Vec<String> = reps.iter().map(|rp| mk(rp).split_whitespace().collect::<Vec<_>>().join(" ")).collect();
+            let sep = if exc { "|" } else { "/" };
+            let short = format!("a > i {} {}", sep, mk(&opt).split_whitespace().collect::<Vec<_>>().join(" "));
+            let long = if members.len() == 1 { format!("a > i {} {}", sep, members[0]) } else { format!("a > i {} :{{ {} }}:", sep, members.join(", ")) };
+            jobs.push(("optional-tail2", vec![short], vec![long]));
+        } } }
+    } } }
     // `(X,0)` = zero or more: explicit repetitions up to the longest word
     for x in &xopts { for tail in tails { for after in [true, false] {
         let reps: Vec<String> = (0..=maxl).map(|k| std::iter::repeat(x.join(" ")).take(k).collect::<Vec<_>>().join(" ")).collect();
@@ -111,9 +126,10 @@ pub fn run() -> i32 {
     for a in ab { for b in ab { for e in ["", " / _ #", " / # _", " / V _", " | _ C"] {
         jobs.push(("metathesis-vs-variables", vec![format!("{} {} > &{}", a, b, e)], vec![format!("{}=1 {}=2 > 2 1{}", a, b, e)]));
     } } }
+    let ws5: Vec<CW> = { let inv: Vec<SegBits> = ["p", "t", "a"].iter().map(|t| seg(t)).collect(); word_space(&inv, 5) };
     let mut per: std::collections::BTreeMap<&str, Acc> = Default::default();
     let mut parts: Vec<(usize, Acc)> = vec![];
-    par_fold(jobs.len(), 8, Vec::new, |i, acc: &mut Vec<(usize, Acc)>| { let mut a = Acc::default(); compare(jobs[i].0, &jobs[i].1, &jobs[i].2, &ws, &mut a); acc.push((i, a)); }, |a| parts.extend(a));
+    par_fold(jobs.len(), 8, Vec::new, |i, acc: &mut Vec<(usize, Acc)>| { let mut a = Acc::default(); compare(jobs[i].0, &jobs[i].1, &jobs[i].2, if jobs[i].0 == "optional-tail2" { &ws5 } else { &ws }, &mut a); acc.push((i, a)); }, |a| parts.extend(a));
     for (i, a) in parts { per.entry(jobs[i].0).or_default().merge(a); }
     // (c) group letters on the segment universe (one- and two-segment words)
     let uni = super::c04::segment_universe(thorough);
